@@ -1,5 +1,5 @@
 SPECIFICATION Spec
-CONSTANTS MaxOps = 3  MaxIng = 2  MaxArch = 1
+CONSTANTS MaxOps = 3  MaxIng = 2  MaxArch = 1  Variants = FALSE
 INVARIANTS TypeOK FlavourArchiveInvisible ManifestsCarried UnsignedClean TamperedIngredientRecorded ProfileLocal
 PROPERTIES DescStable
 CHECK_DEADLOCK FALSE
